@@ -114,6 +114,8 @@ def random_spec(rng, shapes=None, strategy=None, plugins=None):
             for col in c['columns']:
                 if col['name'] == 'content':
                     col['deferred'] = True
+    # (columns with a Python-side / server-side default are the open finding F-DEFAULT: pinned in corpus/C01, kept out of
+    # the random stream)
     if opts['strategy'] == 'validity' and rng.random() < 0.1:
         # class-level override of the end-transaction column name (children inherit __versioned__)
         for c in spec['classes']:
@@ -451,3 +453,27 @@ def same_value_inherited_case(rng):
         prog += [rng.choice([['commit'], ['commit'], ['rollback']])]
     prog += [['set', sub, [1], 'name', 7], ['commit']]
     return {'spec': spec, 'autoflush': False, 'program': prog, 'family': 'same_value_on_expired_subclass_instance'}
+
+
+def repeated_takeover_case(rng):
+    """ONE transaction in which the row of one key changes hands several times: delete + re-add in one flush (the new
+    object takes the row over and keeps the columns it never set), delete / flush / re-add (a real INSERT: those columns
+    are NULL now), a column set on the new holder and flushed, another take-over ... - the version row holds the LAST state"""
+    spec = envs.shape_articles({'strategy': rng.choice(['validity', 'subquery'])},
+                               plugins=rng.choice([[], [], ['mod_tracker'], ['null_delete']]))
+    spec['shape'] = 'articles'
+    prog = [['add', 'Article', [1], {'name': 1, 'content': 5}], ['commit']]
+    if rng.random() < 0.5:
+        prog += [['set', 'Article', [1], 'name', 2], ['flush']]
+    n = 2
+    for _ in range(rng.choice([2, 3, 4])):
+        k = rng.random()
+        n += 1
+        if k < 0.45:      # take-over in one flush
+            prog += [['del', 'Article', [1]], ['add', 'Article', [1], {'name': n}], ['flush']]
+        elif k < 0.8:     # delete, flush, re-insert
+            prog += [['del', 'Article', [1]], ['flush'], ['add', 'Article', [1], {'name': n}], ['flush']]
+        else:             # the holder sets the column itself
+            prog += [['set', 'Article', [1], 'content', 10 + n], ['flush']]
+    prog += [['commit'], ['set', 'Article', [1], 'name', 40], ['commit']]
+    return {'spec': spec, 'autoflush': False, 'program': prog, 'family': 'row_changes_hands_repeatedly'}
